@@ -80,6 +80,17 @@ func (t *cellTr) natExpr(e ast.Expr) string {
 			return v.expr
 		}
 	case *ast.CallExpr:
+		if sel, ok := x.Fun.(*ast.SelectorExpr); ok {
+			if pk, ok := sel.X.(*ast.Ident); ok {
+				switch {
+				case pk.Name == "subtle" && sel.Sel.Name == "ConstantTimeSelect" && len(x.Args) == 3:
+					// subtle.ConstantTimeSelect(v, x, y): x if v == 1, y if v == 0
+					return fmt.Sprintf("(if %s = 1 then %s else %s)", t.natExpr(x.Args[0]), t.natExpr(x.Args[1]), t.natExpr(x.Args[2]))
+				case pk.Name == "field" && sel.Sel.Name == "IsZero" && len(x.Args) == 1:
+					return "FiatField.isZero " + atom(t.natExpr(x.Args[0]))
+				}
+			}
+		}
 		if id, ok := x.Fun.(*ast.Ident); ok && len(x.Args) == 1 {
 			switch id.Name {
 			case "len":
@@ -130,13 +141,34 @@ func (t *cellTr) bytesExpr(e ast.Expr) string {
 		}
 		if x.High != nil {
 			hi := t.natExpr(x.High)
-			r = fmt.Sprintf("List.take (%s - %s) %s", hi, lo, atom(r))
+			if lo == "0" {
+				r = fmt.Sprintf("List.take %s %s", atom(hi), atom(r))
+			} else {
+				r = fmt.Sprintf("List.take (%s - %s) %s", hi, lo, atom(r))
+			}
 		}
 		return r
 	case *ast.CallExpr:
 		// [32]byte(s): the bytes themselves
 		if _, ok := x.Fun.(*ast.ArrayType); ok && len(x.Args) == 1 {
 			return t.bytesExpr(x.Args[0])
+		}
+		if id, ok := x.Fun.(*ast.Ident); ok && id.Name == "append" && len(x.Args) == 2 {
+			a := t.bytesExpr(x.Args[0])
+			if x.Ellipsis != token.NoPos {
+				return atom(a) + " ++ " + atom(t.bytesExpr(x.Args[1]))
+			}
+			return atom(a) + " ++ [" + t.natExpr(x.Args[1]) + "]"
+		}
+		if sel, ok := x.Fun.(*ast.SelectorExpr); ok && sel.Sel.Name == "Bytes" && len(x.Args) == 0 {
+			return "B.bytes " + atom(t.val(sel.X))
+		}
+		if v := t.eval(x); v.kind == "bytes" {
+			return v.expr
+		}
+	case *ast.UnaryExpr:
+		if x.Op == token.AND {
+			return t.bytesExpr(x.X)
 		}
 	}
 	t.fail(e, "byte-string expression")
@@ -340,10 +372,135 @@ func translateDecoder(p *pkgSrc, fn *ast.FuncDecl, leanName string) string {
 	return sig + " : Option String × Pt α :=\n" + body + "\n"
 }
 
+// encStmt: the statements of the encoders that work on byte arrays; false: not one of them
+func (t *cellTr) encStmt(s ast.Stmt) bool {
+	bindBytes := func(name, expr string) {
+		n := t.fresh("b")
+		t.emit(n, expr)
+		t.env[name] = cval{kind: "bytes", expr: n}
+	}
+	switch x := s.(type) {
+	case *ast.DeclStmt:
+		gd := x.Decl.(*ast.GenDecl)
+		if gd.Tok == token.VAR && len(gd.Specs) == 1 {
+			vs := gd.Specs[0].(*ast.ValueSpec)
+			if at, ok := vs.Type.(*ast.ArrayType); ok && len(vs.Names) == 1 && len(vs.Values) == 0 && typeName(at.Elt) == "byte" {
+				t.env[vs.Names[0].Name] = cval{kind: "bytes", expr: "List.replicate " + atom(t.natExpr(at.Len)) + " 0"}
+				return true
+			}
+		}
+	case *ast.AssignStmt:
+		if len(x.Lhs) != 1 || len(x.Rhs) != 1 {
+			return false
+		}
+		// out[k] = byte(v)
+		if ie, ok := x.Lhs[0].(*ast.IndexExpr); ok {
+			if id, ok := ie.X.(*ast.Ident); ok {
+				if v, ok := t.env[id.Name]; ok && v.kind == "bytes" {
+					bindBytes(id.Name, fmt.Sprintf("List.set %s %s %s", atom(v.expr), atom(t.natExpr(ie.Index)), atom(t.natExpr(x.Rhs[0]))))
+					return true
+				}
+			}
+			return false
+		}
+		id, ok := x.Lhs[0].(*ast.Ident)
+		if !ok {
+			return false
+		}
+		if call, ok := x.Rhs[0].(*ast.CallExpr); ok {
+			if sel, ok := call.Fun.(*ast.SelectorExpr); ok {
+				if pk, ok := sel.X.(*ast.Ident); ok && pk.Name == "subtle" && sel.Sel.Name == "ConstantTimeSelect" {
+					n := t.fresh("c")
+					t.emit(n, t.natExpr(call))
+					t.env[id.Name] = cval{kind: "u64", expr: n}
+					return true
+				}
+			}
+			if f, ok := call.Fun.(*ast.Ident); ok && f.Name == "append" {
+				bindBytes(id.Name, t.bytesExpr(call))
+				return true
+			}
+		}
+	case *ast.ExprStmt:
+		call, ok := x.X.(*ast.CallExpr)
+		if !ok {
+			return false
+		}
+		sel, ok := call.Fun.(*ast.SelectorExpr)
+		if !ok {
+			return false
+		}
+		if pk, ok := sel.X.(*ast.Ident); ok && pk.Name == "subtle" && sel.Sel.Name == "ConstantTimeCopy" && len(call.Args) == 3 {
+			// subtle.ConstantTimeCopy(v, dst, src): dst (a window out[a:] of a local array) receives src when v == 1
+			se, ok := call.Args[1].(*ast.SliceExpr)
+			if !ok || se.High != nil {
+				t.fail(s, "ConstantTimeCopy destination")
+			}
+			id, ok := se.X.(*ast.Ident)
+			if !ok {
+				t.fail(s, "ConstantTimeCopy destination")
+			}
+			v, ok := t.env[id.Name]
+			if !ok || v.kind != "bytes" {
+				t.fail(s, "ConstantTimeCopy destination")
+			}
+			lo := "0"
+			if se.Low != nil {
+				lo = t.natExpr(se.Low)
+			}
+			src := t.fresh("b")
+			t.emit(src, t.bytesExpr(call.Args[2]))
+			bindBytes(id.Name, fmt.Sprintf("if %s = 1 then List.take %s %s ++ %s ++ List.drop (%s + %s.length) %s else %s",
+				t.natExpr(call.Args[0]), lo, atom(v.expr), src, lo, src, atom(v.expr), v.expr))
+			return true
+		}
+	}
+	return false
+}
+
+// translateEncoder emits `name B F e : List Nat` for a straight-line encoder ending in `return <bytes>`.
+func translateEncoder(p *pkgSrc, fn *ast.FuncDecl, leanName string) string {
+	t := &cellTr{fset: p.fset, pkg: "root", fname: fn.Name.Name, cur: map[*cell]string{}, dirty: map[*cell]bool{}, env: map[string]cval{},
+		globals: pkgGlobals(p), src: p, apiMode: true, optional: map[string]bool{}, topElems: map[string]cval{}, maybeNil: map[string]bool{},
+		consts: pkgConsts(p), bytesMode: true}
+	recv := fn.Recv.List[0].Names[0].Name
+	t.recvName = recv
+	var v cval
+	v.kind = "elem"
+	for i, f := range []string{"x", "y", "z"} {
+		v.xyz[i] = t.newCell(recv + "." + f)
+	}
+	t.env[recv] = v
+	t.topElems[recv] = v
+	res := t.encBody(fn.Body.List)
+	body := strings.Join(t.out, "\n")
+	if body != "" {
+		body += "\n"
+	}
+	return fmt.Sprintf("def %s {α : Type} (B : ByteOps α) (F : FieldOps α) (%s : Pt α) : List Nat :=\n%s  %s\n", leanName, recv, body, res)
+}
+
+// encBody runs a straight-line encoder body and returns the Lean term of the returned byte string
+func (t *cellTr) encBody(stmts []ast.Stmt) string {
+	for _, s := range stmts {
+		if rs, ok := s.(*ast.ReturnStmt); ok {
+			if len(rs.Results) != 1 {
+				t.fail(s, "return arity")
+			}
+			return t.bytesExpr(rs.Results[0])
+		}
+		if !t.encStmt(s) {
+			t.stmt(s)
+		}
+	}
+	t.fail(ast.NewIdent("end"), "an encoder body must end with a return")
+	return ""
+}
+
 func genDecoders(root *pkgSrc, outPath string) {
 	var b strings.Builder
 	b.WriteString(header)
-	b.WriteString("import Secp.Gen.Curve\n\n/-- the byte-level methods of `field.Element` the decoders call -/\nstructure ByteOps (α : Type) where\n  fromBytesWithReduce : List Nat → α × Nat\n\nnamespace GenDecode\n\n")
+	b.WriteString("import Secp.Gen.Curve\n\n/-- the byte-level methods of `field.Element` the decoders call -/\nstructure ByteOps (α : Type) where\n  fromBytesWithReduce : List Nat → α × Nat\n  bytes : α → List Nat\n\nnamespace GenDecode\n\n")
 	for _, j := range []struct{ fn, lean string }{
 		{"Element.DecodeCoordinates", "decodeCoordinates"},
 		{"Element.DecodeCompressed", "decodeCompressed"},
@@ -362,6 +519,25 @@ func genDecoders(root *pkgSrc, outPath string) {
 				}
 			}()
 			b.WriteString(translateDecoder(root, fd, j.lean) + "\n")
+		}()
+	}
+	for _, j := range []struct{ fn, lean string }{
+		{"Element.Encode", "encode"},
+		{"Element.EncodeUncompressed", "encodeUncompressed"},
+		{"Element.XCoordinate", "xCoordinate"},
+	} {
+		fd, ok := root.funcs[j.fn]
+		if !ok {
+			fmt.Fprintf(&b, "-- NOT TRANSLATED: %s (not found)\n\n", j.fn)
+			continue
+		}
+		func() {
+			defer func() {
+				if r := recover(); r != nil {
+					fmt.Fprintf(&b, "-- NOT TRANSLATED: %s (%v)\n\n", j.fn, strings.ReplaceAll(fmt.Sprint(r), "\n", " "))
+				}
+			}()
+			b.WriteString(translateEncoder(root, fd, j.lean) + "\n")
 		}()
 	}
 	b.WriteString("end GenDecode\n")
